@@ -401,10 +401,10 @@ KERNELS += [
     Kernel(BA, "BitArray", "sliding_window", "gen_bit_window", [("reg_", "Z"), ("nxt_", "Z"), ("shift_", "Z"), ("rshift_", "Z"), ("window_size", "Z"), ("stride_", "Z")], {},
            selfmap=BITSELF, uint=64,
            calls={"self._data[:, None]": "reg_", "self._data[1:, None]": "nxt_", "self._shifts[::-1]": "rshift_", "aug:res[:-1]": "res",
-                  "res.ravel()[:max(self._shape[0] - window_size + 1, 0)]": "res"}),
+                  "res.ravel()[:max(self._shape[0] - int(window_size) + 1, 0)]": "res"}),
     Kernel(BA, "BitArray", "sliding_window", "gen_bit_window_last", [("reg_", "Z"), ("shift_", "Z"), ("rshift_", "Z"), ("window_size", "Z"), ("stride_", "Z")], {},
            selfmap=BITSELF, uint=64,
-           calls={"self._data[:, None]": "reg_", "self._shifts[::-1]": "rshift_", "res.ravel()[:max(self._shape[0] - window_size + 1, 0)]": "res"},
+           calls={"self._data[:, None]": "reg_", "self._shifts[::-1]": "rshift_", "res.ravel()[:max(self._shape[0] - int(window_size) + 1, 0)]": "res"},
            branch=lambda body: [s for s in body if not (isinstance(s, ast.AugAssign) and ast.unparse(s.target) == "res[:-1]")]),
 ]
 
